@@ -64,9 +64,14 @@ Theorem c06_through_forked : C06_through_forked.
 Proof. exact c06_through_forked_proof. Qed.
 Print Assumptions c06_through_forked.
 
-Theorem c06_through_at_lib_not_served : C06_through_at_lib_not_served.
-Proof. exact c06_through_at_lib_not_served_proof. Qed.
-Print Assumptions c06_through_at_lib_not_served.
+Theorem c06_through_final_cursor : C06_through_final_cursor.
+Proof. exact c06_through_final_cursor_proof. Qed.
+Print Assumptions c06_through_final_cursor.
+
+(* the resolver before the fix did not serve a final target cursor *)
+Theorem c06_through_final_cursor_unfixed_refuted : C06_through_final_cursor_unfixed_refuted.
+Proof. exact c06_through_final_cursor_unfixed_refuted_proof. Qed.
+Print Assumptions c06_through_final_cursor_unfixed_refuted.
 
 (* what file_of means for a store with one file per id *)
 Theorem c06_file_of_present : forall forked c b,
@@ -212,17 +217,20 @@ Example c06_nonvacuous_through :
   (exists b, In b (file_delivery nv_merged 1 9 5) /\ rn (cu_lib (cur SNew f6)) < bnum b /\ rn (cu_blk (cur SNew f6)) <= bnum b) /\
   through_cursor_run nv_merged [f4; f6] 1 (cur SNew f6) 9 5 = (map (file_event SNewIrr) [a 1 0; a 2 1], RsNotImplemented) /\
   (* final target cursor on block 2 *)
-  In nv_L (file_delivery nv_merged 1 9 5) /\ rn (cu_blk (cur SIrr nv_L)) <= rn (cu_lib (cur SIrr nv_L)) /\
-  (exists b, In b (file_delivery nv_merged 1 9 5) /\ rn (cu_lib (cur SIrr nv_L)) < bnum b) /\
-  through_cursor_run nv_merged [] 1 (cur SIrr nv_L) 9 5 = (map (file_event SNewIrr) [a 1 0; a 2 1], RsNotImplemented).
+  In nv_L (file_delivery nv_merged 1 9 5) /\ bref nv_L = cu_blk (cur SIrr nv_L) /\
+  rn (cu_blk (cur SIrr nv_L)) <= rn (cu_lib (cur SIrr nv_L)) /\
+  through_cursor_run nv_merged [] 1 (cur SIrr nv_L) 9 5 =
+    (map (file_event SNewIrr) [a 1 0; a 2 1; a 3 2; a 4 3; a 6 4; a 7 6; a 8 7; a 9 8], RsOk) /\
+  (* the same input on the resolver before the fix *)
+  resolver_run_unfixed (cur SIrr nv_L) rs_init (file_delivery nv_merged 1 9 5) =
+    (map (file_event SNewIrr) [a 1 0; a 2 1], RsNotImplemented).
 Proof.
   split; [chain_tac|]. split; [vm_compute; tauto|]. split; [cbn; lia|].
   split; [vm_compute; lia|].
   split; [exists (a 6 4); split; [vm_compute; tauto|cbn; lia]|].
   split; [vm_compute; reflexivity|].
-  split; [vm_compute; tauto|]. split; [cbn; lia|].
-  split; [exists (a 3 2); split; [vm_compute; tauto|cbn; lia]|].
-  vm_compute. reflexivity.
+  split; [vm_compute; tauto|]. split; [reflexivity|]. split; [cbn; lia|].
+  split; vm_compute; reflexivity.
 Qed.
 
 (* held_split: a branch with both kinds of blocks *)
